@@ -11,6 +11,8 @@ CHECKS = {
          "generated-input search over all collider kinds, poses and special directions against closed-form reference support functions; held on everything explored"),
  "C04": ("property-based testing (Hypothesis): AABB bounds vs closed-form support values along +-e_i; RigidBody vs world-frame vertex bounds; overlap consequence on constructed overlapping scenes",
          "generated-input search against a closed-form oracle that decides enclosure and tightness at once; one open known finding (ellipsoid_aabb)"),
+ "C06": ("model-based testing: Hypothesis-generated URDF robots (grammar) + extra colliders, op lists of joint moves / re-posed frames / queries; brute-force AABB overlap, reference-shape poses, all-pairs reference GJK for self-collision (clear cases only)",
+         "generated histories against brute-force and reference oracles after every step; held on everything explored"),
  "C07": ("property-based testing (Hypothesis): overlapping scenes, gjk -> epa protocol, vs exact qhull penetration depth (polytope pairs) and certified bounds (smooth pairs); both simplex windings",
          "generated-input search with an exact oracle for polytopes; one open known finding (GJK hands over an incomplete simplex)"),
  "C08": ("property-based testing (Hypothesis): overlapping scenes, mpr_penetration vs exact qhull penetration depth (polytopes) / ball-witness bounds, translation test, contact membership",
